@@ -20,6 +20,8 @@ def run(rep):
     rep.guard(k5, rep, w)
     rep.guard(k6, rep, w)
     rep.guard(k7, rep, w)
+    import c06
+    rep.guard(c06.s12, rep, w, 'C07')   # a class declared in a block is a captured local of its methods: leaving the block has to close it, not the variable next to it
     import c04
     rep.guard(c04.b12, rep, w)    # methods are constants of the class body's chunk: two different functions sharing one constant slot make one class answer with the other's method
     import c06
